@@ -1,7 +1,7 @@
 /-
 WP close2, item 4: non-vacuity of the small-`x` Gourdon theorems — a COMPLETE concrete execution of `pi_gourdon_64(2400)` under
 `alpha_y = alpha_z = 1`: `x^(1/3) = 13`, `√x = 48`, `y = z = 14`, `k = get_k(2400) = π(6) = 3 < 4`, `x / z = 171`.
-This is the interesting corner: with `low = 0`, `limit = 171` D_thread has `min_b = 4 ≤ max_b = π(min(48, 13, x⋆)) = 5 or 6`, so the segment loop
+This is the interesting corner: with `low = 0`, `limit = 171` D_thread has `min_b = 4 ≤ max_b = π(min(48, 13, x⋆ = 13)) = 6`, so the segment loop
 IS entered with the level `b = 4` (prime 7) that `class Sieve` / FactorTableD cannot process — and leaves it through
 `goto next_segment` (`7 ≥ x / 7³ = 6`).
 -/
